@@ -424,6 +424,14 @@ impl Server {
   }
 }
 
+/// Read-only observation point for external verification tooling.
+#[cfg(feature = "verif-hooks")]
+impl Server {
+  pub fn verif_pprf(&self) -> &GGM {
+    &self.pprf
+  }
+}
+
 // The `Client` struct is essentially a collection of static functions
 // for computing client-side operations in the PPOPRF protocol.
 pub struct Client {}
